@@ -213,7 +213,11 @@ def gen_run(r, i, tier):
     if mode == "fixed":
         cfg.update(adaptive=False, n_steps=int(r.choice([1, 2, 3, 5, 7, 10, 13, 20])))
     elif mode == "min_step" and cfg["sampler"] == "minipcn_smc":
-        cfg.update(min_step=float(r.choice([0.05, 0.2, 0.34])))
+        cfg.update(min_step=float(r.choice([0.05, 0.1, 0.2, 0.34, 1 / 3, 0.7])))
+        if r.random() < 0.5:
+            # the floor binds at EVERY step (ESS-limited step far smaller than the floor): the temperatures are k * min_step as
+            # accumulated in floating point (ten additions of 0.1 give 0.9999999999999999, not 1)
+            cfg.update(target_efficiency=0.95, dims=3, like_width=0.05)
     elif mode == "max_n_steps" and cfg["sampler"] == "minipcn_smc":
         cfg.update(max_n_steps=int(r.integers(1, 8)))
     elif mode == "ramp":
@@ -233,6 +237,16 @@ def gen_run(r, i, tier):
         cfg["n_final_samples"] = int(cfg["n_samples"] * r.choice([0.5, 2]))
     cfg["mode"] = mode
     return cfg
+
+
+def corpus_runs():
+    """always-run schedules whose every step is decided by the minimum-step floor: the temperatures are the floating-point
+    partial sums k * min_step (0.1 ten times = 0.9999999999999999), then one more step to exactly 1"""
+    out = []
+    for j, ms in enumerate((0.1, 0.05, 1 / 3, 0.2, 0.7, 0.15, 0.3)):
+        out.append({"seed": 100 + j, "n_samples": 12, "dims": 3, "like_width": 0.05, "kernel_steps": 1, "sampler": "minipcn_smc",
+                    "min_step": ms, "target_efficiency": 0.95, "mode": "floor_bound"})
+    return out
 
 
 def loop_line(cfg, rec, rng, cut=-1, resume=False, every=None):
@@ -421,7 +435,7 @@ def run(chk: core.Check):
     units = [gen_unit(r, i, chk.tier) for i in range(400 if quick else 20000)]
     for i in range(0, len(units), 400):
         check_units(chk, units[i:i + 400])
-    runs = [gen_run(r, i, chk.tier) for i in range(40 if quick else 600)]
+    runs = corpus_runs() + [gen_run(r, i, chk.tier) for i in range(40 if quick else 600)]
     check_runs(chk, runs)
 
     def search():
